@@ -35,7 +35,7 @@ CHECKS["C11"] = dict(
           "sizes, eight streams) are read in the specified order; collection directory entries are UInt32/255UInt16 values. One known finding is reported on every run "
           "(KNOWN-FINDING line, exit 0): the rebuilt leftSideBearing[] array covers all glyphs instead of those past numberOfHMetrics. "
           "Decides a necessary condition of the property (a wrong row mis-decodes some conforming file); stream bookkeeping and "
-          "reconstruction arithmetic are not decided."),
+          "reconstruction arithmetic are not decided. For a parsed glyph xMin is the stored bounding box: nothing that computes a box from points is reachable from x_min."),
     design_ref="DESIGN.md section 6, C11",
 )
 
@@ -50,7 +50,7 @@ CHECKS["C18"] = dict(
           "the stack were counted, on every path; CFF/CFF2 header layouts; an operand stack's limit never exceeds its array; the 17 path operator handlers "
           "(moveto, lineto, curveto families and the four flex operators) issue the drawing calls and leave the current point that the Type 2 specification gives, as linear "
           "forms in the current point and the operands, per segment of the handler (T18-PATH). Operand-stack depth is decided only through the audited indexing/arithmetic sites of C01; "
-          "contour closing, seac composition and the blend arithmetic itself are not decided."),
+          "contour closing, seac composition and the blend arithmetic itself are not decided. In CFF2 instancing no write to a font's Private DICT or local subroutines reaches the interpretation of a charstring (R12-PDO); zips of reordered with unreordered sequences are rejected (T18-Z)."),
     design_ref="DESIGN.md section 6, C18",
 )
 
@@ -63,7 +63,7 @@ CHECKS["C06"] = dict(
           "enumeration for format 4 (one shared kernel fed with the raw segment values; the enumeration neither truncates or filters its segment iterator nor leaves "
           "its loops early) with every format listed in both dispatchers; the symbol PUA fallback tests U+F000..=U+F0FF inclusive; no unchecked "
           "lossy cast of a code or glyph id in the lookup code; cmap header layout. Format "
-          "0/2/6/10/12 lookup arithmetic and Big5 (encoding_rs) are not decided."),
+          "0/2/6/10/12 lookup arithmetic and Big5 (encoding_rs) are not decided. subHeaderKeys of cmap format 2 is never searched for a key (T06-SHK); binary searches only over ordered data (T06-BS)."),
     design_ref="DESIGN.md section 6, C06 and section 11",
 )
 CHECKS["C12"] = dict(
@@ -94,7 +94,7 @@ CHECKS["C01"] = dict(
           "references (`&u32 * u32`), abs / pow / next_power_of_two, integer sum / product, and divisions by a reference or through div_euclid / div_ceil. An audit whose "
           "reason leans on a boolean helper elsewhere can name it (relies_on); the helper is re-read on every run (C01-r). Each site is discharged by its rule, audited with a written "
           "reason from an independent review, or a violation; a new site in an audited function exceeds the key's count. Add/mul overflow in "
-          "64-bit types, allocation failure, running time of terminating loops and decompression size are not decided."),
+          "64-bit types, allocation failure, running time of terminating loops and decompression size are not decided. An audited index that leans on two collections having one length re-reads the builder of the collection on every run (one push per element on every path round the loop, or collected in one expression; C01-r parallel clause); a clamp whose bounds are computed is discharged when the function, read as a decision list, reaches no clamp with unordered bounds on a grid of all orderings of its scalar inputs."),
     design_ref="DESIGN.md sections 6 (C01) and 11.2",
 )
 CHECKS["C10"] = dict(
@@ -143,7 +143,7 @@ CHECKS["C17"] = dict(
           "order; the NotReordered fast path ends below U+0300; the sort of a mark run is unconditional; the Bengali YA+NUKTA recomposition tests "
           "its two constants; the modified combining class table equals the documented one for every class in use; the Thai/Lao above-base "
           "mark predicate equals the documented set; the script-specific reordering functions sort on every path. That the comparator realises AMTRA and that the "
-          "decomposition tables are the documented ones is not decided."),
+          "decomposition tables are the documented ones is not decided. Binary searches (binary_search*, partition_point) only over data ordered by the searched key: none in the preprocessing code today, a new one is reported until audited (T17-BS)."),
     design_ref="DESIGN.md section 6, C17",
 )
 
@@ -159,7 +159,7 @@ CHECKS["C04"] = dict(
           "into fields of the same meaning; feature-variation conditions test their range inclusively; after a multiple or ligature substitution "
           "the position and the bound of the run being processed move by what the substitution reports (T04-RUN, piecewise-linear comparison of the "
           "updates with the specification), in the top-level loop and in the change reported by a nested lookup. Glyph matching, "
-          "context rule selection and the bookkeeping of context lookups are not decided."),
+          "context rule selection and the bookkeeping of context lookups are not decided. A feature variation record is passed over only after its condition set was evaluated (T04-FVR); binary searches only over data the specification orders (T04-BS, audited sites)."),
     design_ref="DESIGN.md section 6, C04",
 )
 
@@ -196,7 +196,7 @@ CHECKS["C09"] = dict(
           "checksum, records carrying the unpadded length and the running padded offset through checked conversions; tables kept and emitted "
           "in tag order; glyf, loca and head written with one loca format; the WOFF2 provider serialises head after its last modification; hmtx writers and hhea.numberOfHMetrics agree (the instancer sets "
           "it on every path); composite glyph reader and writer agree on where WE_HAVE_INSTRUCTIONS is looked for. "
-          "Mutual consistency of table contents and the search-field values are not decided."),
+          "Mutual consistency of table contents and the search-field values are not decided. Every table handed to the font builder is stored on every path to an Ok result (T09-ADD); the CFF header writers announce the size they write (C15-s)."),
     design_ref="DESIGN.md section 6, C09",
 )
 
@@ -209,7 +209,7 @@ CHECKS["C07"] = dict(
           "rebuild_local_subr_indices is keyed in the id space of the FDSelect it is looked up in, composite glyphs are recognised by the "
           "sign of numberOfContours, rebuilt subr INDEXes keep the source entry count (bias preserved), the FDSelect format 3 sentinel is the "
           "glyph count, the hmtx writer's long-metric count is the one stored in hhea, and the charstring operator tables used when CFF2 is "
-          "converted to CFF are mutual inverses. Equality of outlines and metrics and CFF subroutine renumbering are not decided."),
+          "converted to CFF are mutual inverses. Equality of outlines and metrics and CFF subroutine renumbering are not decided. Every composite record that reaches the TrueType subset went through add_glyph (T07-REMAP, edge-wise must-pass); the CFF header writers announce the size they write (C15-s); binary searches only over ordered data (T07-BS)."),
     design_ref="DESIGN.md section 6, C07",
 )
 
@@ -220,7 +220,7 @@ CHECKS["C08"] = dict(
           "translated through new_id, cmap builders accept only new ids), of the order-independent selection of mappings, of the mutual "
           "inverseness of the Mac Roman tables, and of the absence of unchecked narrowing of ids and codes in the cmap builders; the requested cmap target reaches the selection unchanged; "
           "format 4 adds idDelta only to non-zero glyphIdArray values. That the "
-          "emitted sub-tables map each character to the right glyph is not decided."),
+          "emitted sub-tables map each character to the right glyph is not decided. subHeaderKeys is never searched for a key (T06-SHK); binary searches only over ordered data (T08-BS)."),
     design_ref="DESIGN.md section 6, C08",
 )
 CHECKS["C15"] = dict(
@@ -233,7 +233,7 @@ CHECKS["C15"] = dict(
           "position-derived offsets are relative; the CFF INDEX offSize is the specification's decision table applied to the largest "
           "offset actually written; a writer does not emit a computing accessor where the reader stored the raw item; the CFF integer "
           "operand ranges of the writers equal the specification; composite glyph reader and writer agree on the instruction flag; the readers of head, hhea, maxp, post, OS/2 and the CFF headers "
-          "follow the specification's item order; the OS/2 size threshold matches the bytes consumed. Equality of values, and data-dependent layouts beyond the compared prefix, are not decided."),
+          "follow the specification's item order; the OS/2 size threshold matches the bytes consumed. Equality of values, and data-dependent layouts beyond the compared prefix, are not decided. The CFF / CFF2 header writers announce a constant header size equal to the bytes they write (C15-s); a writer never zips a sequence whose collection was reordered in place with one that was not (C15-z)."),
     design_ref="DESIGN.md section 6, C15",
 )
 
@@ -246,7 +246,7 @@ CHECKS["C05"] = dict(
           "same meaning; both dispatchers list every PosLookup kind; nested lookups are applied at the position found by the flag-aware iterator; the base of a nested MarkToBase/MarkToLigature is "
           "found ignoring marks; cursive adjustment precedes mark positioning; the lookup indices of a feature are sorted before they are "
           "applied; mark-skipping modes only reject marks; layout record and kern class table readers follow the specification's item order; a ClassDef class value "
-          "is never tested against a constant (class 0 is a class)."),
+          "is never tested against a constant (class 0 is a class). Every store to Info::kerning in the GPOS code accumulates onto the value the glyph already carries (T05-ACC); the lookup-flag decision table is checked here too (T04-FLAG); binary searches only over ordered data (T05-BS)."),
     design_ref="DESIGN.md section 11 (C05 was listed as not applicable in section 7; the table clauses were added later)",
 )
 
